@@ -18,8 +18,8 @@ NOT_DECIDED = ["the sizes actually reached for a given cost profile", "non-zero-
 
 def r19_1(ctx, S, prog, crate):
     b = S.body
-    im = prog.body("benchmark::BenchContext::initial_mode", crate)
-    if ctx.anchor("R19.1", "initial_mode", 1 if im else 0, 1):
+    imc, im = S.initial_mode_call()
+    if ctx.anchor("R19.1", "initial mode function (the call producing the first BenchMode)", 1 if im else 0, 1):
         ctx.saw(im)
         aggs = {}
         for bi, si, s in im.stmts():
@@ -221,8 +221,8 @@ def r19_4(ctx, S, prog, crate):
                 ok = b.dominates(t["otherwise"], c.bb) and b.pred[t["otherwise"]] == [sb]
         ctx.check(ok, "R19.4", [b.path, "precision-only-when-tuning"], "precision is measured although the sample size is given", c.line())
     # one loop header for tuning and collecting rounds: the mode switch is inside the sampling loop whose only condition is R04.1
-    im = [c for c in b.live_calls() if c.callee == "benchmark::BenchContext::initial_mode"]
-    ctx.check(len(im) == 1 and im[0].bb not in S.loop["body"], "R19.4", [b.path, "mode-initialised-once"], "initial_mode calls: %d" % len(im), b.where(0))
+    imc, imb = S.initial_mode_call()
+    ctx.check(imc is not None, "R19.4", [b.path, "mode-initialised-once"], "the initial mode is not computed exactly once before the loop", b.where(0))
     nloops = [l for l in b.loops if any(c.callee == "util::thread::pool::ThreadPool::par_extend" for c in b.live_calls() if c.bb in l["body"])]
     ctx.check(len(nloops) == 1, "R19.4", [b.path, "single-sampling-loop"], "loops containing the broadcast: %d (tuning must not have a loop of its own)" % len(nloops), b.where(0))
 
